@@ -133,7 +133,23 @@ type h2run struct {
 	fp       string
 }
 
-func readFrameOnce(data []byte, tail string) h2run {
+func confirmAlloc(call func([]byte, string) h2run) func([]byte, string) h2run {
+	return func(data []byte, tail string) h2run {
+		cp := func() []byte { return append(make([]byte, 0, cap(data)), data[:cap(data)]...)[:len(data)] }
+		r := call(cp(), tail)
+		for i := 0; i < 3 && r.Alloc > allocSuspicious && r.Out != "loop"; i++ {
+			if r2 := call(cp(), tail); r2.Alloc < r.Alloc {
+				r.Alloc = r2.Alloc
+			}
+		}
+		return r
+	}
+}
+
+func readFrameOnce(data []byte, tail string) h2run { return confirmAlloc(readFrameOnce1)(data, tail) }
+func hpackOnce(data []byte, tail string) h2run     { return confirmAlloc(hpackOnce1)(data, tail) }
+
+func readFrameOnce1(data []byte, tail string) h2run {
 	sc := mh2.NewServerConn(nil)
 	iob := buffer.NewIoBufferBytes(data)
 	before := iob.Len()
@@ -171,7 +187,7 @@ func readFrameOnce(data []byte, tail string) h2run {
 	return r
 }
 
-func hpackOnce(data []byte, tail string) h2run {
+func hpackOnce1(data []byte, tail string) h2run {
 	r := h2run{Tail: tail}
 	n := 0
 	d := hpack.NewDecoder(4096, func(f hpack.HeaderField) { n++; r.fp += "|" + f.Name + "=" + f.Value })
